@@ -3,6 +3,7 @@ package props
 import (
 	"bytes"
 	"fmt"
+	"sync"
 	"testing"
 
 	gots "github.com/Comcast/gots/v2"
@@ -353,4 +354,75 @@ func TestC04Exhaustive(t *testing.T) {
 func FuzzC04(f *testing.F) {
 	c04Rule()
 	f.Fuzz(propC04.Fuzz())
+}
+
+// C04 variant "concurrent": the codecs are pure functions of their arguments, so several goroutines
+// encoding and decoding DIFFERENT values in their own buffers at the same time must each get their own
+// answers. The values are a fixed function of (goroutine, iteration); only the interleaving varies between
+// runs, and a mismatch can only come from state shared between calls (never from the schedule itself).
+type CaseConc struct {
+	Workers int `json:"workers"`
+	Iters   int `json:"iterations"`
+}
+
+func checkC04Conc(c CaseConc, x *hx.Ctx) *hx.Failure {
+	x.NonTrivial()
+	x.Label("concurrent-goroutines")
+	errs := make(chan string, c.Workers)
+	var wg sync.WaitGroup
+	for w := 0; w < c.Workers; w++ {
+		wg.Add(1)
+		go func(w int) {
+			defer wg.Done()
+			defer func() {
+				if r := recover(); r != nil {
+					errs <- fmt.Sprintf("a codec panicked in goroutine %d: %v", w, r)
+				}
+			}()
+			pcr, pts := make([]byte, 6), make([]byte, 5)
+			for i := 0; i < c.Iters; i++ {
+				v64 := (uint64(w+1)*0x9E3779B97F4A7C15 + uint64(i)*0xD1B54A32D192ED03) >> 7
+				base, ext := v64&(1<<33-1), (v64>>40)%300
+				v := base*300 + ext
+				gots.InsertPCR(pcr, v)
+				if got := gots.ExtractPCR(pcr); got != v {
+					errs <- fmt.Sprintf("PCR round trip of %d gave %d (goroutine %d, iteration %d)", v, got, w, i)
+					return
+				}
+				p := (v64 >> 3) & (1<<33 - 1)
+				gots.InsertPTS(pts, p)
+				if got := gots.ExtractTime(pts); got != p {
+					errs <- fmt.Sprintf("PTS round trip of %d through gots.ExtractTime gave %d (goroutine %d, iteration %d)", p, got, w, i)
+					return
+				}
+				if got := pes.ExtractTime(pts); got != p {
+					errs <- fmt.Sprintf("PTS round trip of %d through pes.ExtractTime gave %d (goroutine %d, iteration %d)", p, got, w, i)
+					return
+				}
+			}
+		}(w)
+	}
+	wg.Wait()
+	close(errs)
+	for e := range errs {
+		return hx.Failf("concurrent-codec", "%s while %d other goroutines were using the codecs on other buffers", e, c.Workers-1)
+	}
+	return nil
+}
+
+var propC04Conc = hx.Register(hx.Prop[CaseConc]{ID: "C04", Variant: "concurrent",
+	Gen:   func(t *rapid.T) CaseConc { return CaseConc{Workers: 8, Iters: 20000} },
+	Check: checkC04Conc})
+
+func TestC04_Concurrent(t *testing.T) {
+	c04Rule()
+	if !hx.FirstShard() {
+		t.Skip("runs on shard 0")
+	}
+	for round := 0; round < 3; round++ {
+		if f := propC04Conc.Eval(CaseConc{Workers: 8, Iters: 20000 + round}); f != nil {
+			t.Fatalf("VIOLATION-CANDIDATE property=C04 variant=concurrent key=%s: %s", f.Key, f.Msg)
+		}
+	}
+	hx.Rec("C04").Subspace("3 rounds of 8 goroutines x 20000 PCR and PTS round trips on goroutine-local buffers, concurrently")
 }
